@@ -134,6 +134,13 @@ class World:
             os.utime(self.abs(rel), (mtime, mtime))
         self.trace.append(["put", rel, len(data)])
 
+    def symlink(self, rel, target_rel):
+        """a symbolic link to a regular file of the tree; the model treats it as a file with the target's bytes"""
+        self._ensure_parents(rel)
+        os.symlink(self.abs(target_rel), self.abs(rel))
+        self.files[rel] = self.files[target_rel]
+        self.trace.append(["symlink", rel, target_rel])
+
     def rm(self, rel):
         os.remove(self.abs(rel))
         del self.files[rel]
